@@ -11,8 +11,10 @@ package main
 
 import (
 	"bytes"
+	"flag"
 	"fmt"
 	"net"
+	"os"
 	"strings"
 	"sync"
 	"time"
@@ -242,7 +244,145 @@ func runCase(k badKind, disconnect, style string, concurrent bool) (string, stri
 	return "", ""
 }
 
+func countFDs() int {
+	ents, err := os.ReadDir("/proc/self/fd")
+	if err != nil {
+		return -1
+	}
+	return len(ents)
+}
+
+// runDisconnectCycles: N sequential clients each send one record and disconnect. The agent must close its side of every
+// connection: the number of open descriptors of the process must not grow with the number of disconnects (otherwise the
+// accept loop dies at the descriptor limit and the port stays closed).
+func runDisconnectCycles(disconnect string) (string, string) {
+	r := getRig()
+	const n = 60
+	before := countFDs()
+	if before < 0 {
+		return "", "" // no /proc: not observable here
+	}
+	for i := 0; i < n; i++ {
+		caseSerial++
+		s := rec(fmt.Sprintf("cycle%d-%d", caseSerial, i))
+		conn, err := net.Dial("tcp", r.addr)
+		if err != nil {
+			return "listener:stopped-accepting", fmt.Sprintf("connection %d of %d sequential clients refused: %v (open descriptors %d, at start %d)", i+1, n, err, countFDs(), before)
+		}
+		conn.Write([]byte(s + "\n"))
+		if disconnect == "reset" {
+			conn.(*net.TCPConn).SetLinger(0)
+		}
+		conn.Close()
+		if disconnect != "reset" {
+			waitFor(func() bool { return r.cap.count(s, true) >= 1 })
+		}
+	}
+	// the sockets are closed by a goroutine per connection: give them time (generous: a minute) before counting
+	growth := 0
+	for i := 0; i < 6000; i++ {
+		growth = countFDs() - before
+		if growth < 10 {
+			return "", ""
+		}
+		time.Sleep(10 * time.Millisecond)
+	}
+	return "listener:descriptor-leak-per-disconnect", fmt.Sprintf("after %d sequential clients that disconnected (%s) the process holds %d more open descriptors than before, still a minute later: the agent does not close its side of the connections", n, disconnect, growth)
+}
+
+// runDeadlineRenewal: a connection old enough for its read deadline to have been renewed once, then a multi-line record
+// split into two TCP segments a few milliseconds apart — far less than the flush interval, so no flush pause separates
+// them and the continuation must stay attached. The flush interval is 5 s for this connection (deadline 10 s ahead, renewed
+// when less than 5 s remain): after the renewal behind the pause, the next legitimate flush is at least 5 s away. The
+// case measures the wall time from the end of the pause to the last observation; if the harness itself stalled for more
+// than 3 s the attempt proves nothing and is repeated (never a verdict).
+func runDeadlineRenewal(nCont int, cutAfter int) (string, string) {
+	for attempt := 0; attempt < 5; attempt++ {
+		key, msg, stalled := renewalAttempt(nCont, cutAfter)
+		if !stalled {
+			return key, msg
+		}
+	}
+	return "", ""
+}
+
+func renewalAttempt(nCont int, cutAfter int) (key, msg string, stalled bool) {
+	r := getRig()
+	saved := defs.InputFlushInterval
+	defs.InputFlushInterval = 5 * time.Second
+	r.cap.mu.Lock()
+	sinksBefore := r.cap.sinks
+	r.cap.mu.Unlock()
+	conn, err := net.Dial("tcp", r.addr)
+	if err != nil {
+		defs.InputFlushInterval = saved
+		return "listener:connect-refused", err.Error(), false
+	}
+	caseSerial++
+	id := fmt.Sprintf("renew%d", caseSerial)
+	head, next := rec(id+"-multi"), rec(id+"-next")
+	conn.Write([]byte(rec(id+"-first") + "\n"))
+	waitFor(func() bool { r.cap.mu.Lock(); defer r.cap.mu.Unlock(); return r.cap.sinks > sinksBefore })
+	time.Sleep(50 * time.Millisecond)
+	defs.InputFlushInterval = saved // the wrapper of this connection keeps its own copy
+	time.Sleep(6 * time.Second)     // longer than the flush interval: the next read entry renews the deadline
+	// The read that returns the first record behind the pause was entered before the pause: the NEXT read entry renews the
+	// deadline, and the flush "for deadline update" follows the read after that. Four single-line records, each sent only
+	// after the one before the previous was emitted (i.e. after the agent has processed the previous write), guarantee
+	// that the renewal AND its flush lie behind us when the split record is sent — by observation, not by sleeping.
+	start := time.Now()
+	var t [4]string
+	for i := range t {
+		t[i] = rec(fmt.Sprintf("%s-absorb%d", id, i))
+		conn.Write([]byte(t[i] + "\n"))
+		if i > 0 {
+			prev := t[i-1]
+			waitFor(func() bool { return r.cap.count(prev, true) >= 1 })
+		}
+	}
+	lines := []string{head}
+	for i := 0; i < nCont; i++ {
+		lines = append(lines, fmt.Sprintf("  continuation line %d of %s", i+1, id))
+	}
+	want := strings.Join(lines, "\n")
+	seg1 := strings.Join(lines[:cutAfter], "\n") + "\n"
+	seg2 := strings.Join(lines[cutAfter:], "\n") + "\n" + next + "\n"
+	conn.Write([]byte(seg1))
+	time.Sleep(5 * time.Millisecond)
+	conn.Write([]byte(seg2))
+	waitFor(func() bool { return r.cap.count(head, false) >= 1 && r.cap.count(t[3], true) >= 1 })
+	// (the record in question is emitted when `next` arrives behind it; `next` itself at the close, by FlushAll)
+	elapsed := time.Since(start)
+	conn.Close()
+	waitFor(func() bool { return r.cap.count(next, true) >= 1 })
+	if elapsed > 3*time.Second {
+		return "", "", true
+	}
+	if n := r.cap.count(want, true); n != 1 {
+		got := r.cap.count(head, false)
+		return "flush:between-segments-without-pause", fmt.Sprintf("a multi-line record (%d continuation lines) sent in two segments 5 ms apart on a connection whose read deadline had been renewed came out intact %d times (units starting with its head: %d) within %v: a flush fell between the segments although the flush interval is 5 s and the renewal flush had already happened", nCont, n, got, elapsed), false
+	}
+	return "", "", false
+}
+
+var flagProp = flag.String("prop", "C07", "C07: bad input and disconnects; C08: framing vs flush timing on a long-lived connection")
+
+func enumerateC08(ctx *seq.Ctx) {
+	ctx.Group("listener/deadline-renewal")
+	for n := 1; n <= 3; n++ {
+		for cut := 1; cut <= n; cut++ {
+			n, cut := n, cut
+			ctx.Case(fmt.Sprintf("renewal/cont%d/cut%d", n, cut), true, fmt.Sprint(n, cut), func() (string, string) { return runDeadlineRenewal(n, cut) })
+		}
+	}
+}
+
 func enumerate(ctx *seq.Ctx) {
+	ctx.Group("listener/disconnect-cycles")
+	for _, d := range []string{"close", "reset"} {
+		d := d
+		ctx.Case("cycles/"+d, true, d, func() (string, string) { return runDisconnectCycles(d) })
+	}
 	for _, k := range kinds() {
 		ctx.Group("listener/" + k.name)
 		for _, disc := range []string{"close", "half-close", "reset", "cut-mid-record"} {
@@ -263,6 +403,24 @@ func enumerate(ctx *seq.Ctx) {
 
 func main() {
 	logger.SetLogLevel(logger.ErrorLevel)
+	flag.Parse()
+	if *flagProp == "C08" {
+		seq.Main(&seq.Config{
+			Property: "C08",
+			Level:    "exploration",
+			Rule: "listener level on a real loopback socket: a connection that has outlived one read-deadline renewal (flush interval 5 s, 6 s idle) receives a multi-line record of 1..3 continuation lines " +
+				"split at every line boundary into two TCP segments 5 ms apart; oracle: the record comes out as ONE unit (no flush fell between the segments: the renewal flush is absorbed beforehand by observation, " +
+				"the next one is at least 5 s away; attempts whose measured window exceeded 3 s are repeated, never judged)",
+			Assumptions: []string{
+				"real threads and sockets: the product of record shapes x cut positions is enumerated, the thread schedule is what the runtime produces",
+				"complements seq_framing (all fragmentations x all flush placements on the framer): this part decides that runConnection flushes only on a deadline renewal or a read timeout",
+			},
+			Enumerate:  enumerateC08,
+			MaxProcs:   6,
+			WorkerArgs: []string{"-prop", "C08"},
+		})
+		return
+	}
 	seq.Main(&seq.Config{
 		Property: "C07",
 		Level:    "exploration",
